@@ -40,6 +40,10 @@ CHECKS = {
   technique="deterministic simulation (narrow): seeded permutation of every listdir/scandir result and torn page files (title-loss: emptied, cut inside/before the metadata header, damaged key, leading blank line) on leaf pages, sub-directory index.md and first/last siblings; real get_page_tree() per variant in forked children of a cold process vs a reference model of the page tree; sampled cold full runs check pages 1:1, copied files/copy_subdir and every link and |page|/|media|/|url| alias from every depth",
   text="Seeded search over generated page directories (depth <= 4, index present/absent/title-less, hidden and ~ files, ordered_subpage valid/partial/duplicate/naming missing entries, copy_subdir, other files) x enumeration orders x torn-file sets; the real tree must equal the model under every order and every torn file must be reported without losing siblings. Narrow claim: most of C17 is a function of the directory tree; simulation contributes enumeration order and torn files.",
   note="trusts the ~60-line page-tree model (fordsim/pagemodel.py); names are three-letter lower-case words; only title-loss faults are injected; copy_subdir directories never hold an index.md"),
+"C16": dict(level="exploration", design="5.5",
+  technique="deterministic simulation of a two-party history: project A (externalize), its published copy, project B (external via local path or via SimNet, the simulated HTTP peer behind ford.external_project.urlopen); seeded sequences of buildA(options)/publish(atomic|torn|truncated|missing)/corrupt(15 kinds)/netfault(21 kinds)/buildB(via)/buildB_noext, every build a cold fully simulated real FORD run; invariants I1-I5 evaluated after each buildB against the channel state; history+world minimisation",
+  text="Seeded search over pairs of generated projects and histories of the channel between them. I1: B survives any channel state or network fault; I2: on an atomically published build every link of B into A hits an existing page/anchor that documents that entity, and every USE/type/extends reference B makes to a public entity of A is such a link; I3: modules.json lists exactly A's modules and public entities per the C06 reference model; I4: B's own module of the same name wins; I5: on a faulty channel B's output equals the build without 'external' except for links.",
+  note="SimNet raises only what urllib/http.client raise for the same event, stalled reads excluded; I2 only on consistent channels; calls are not checked as links (rendered in graphs only); A and B are generated from one combined module graph split at a random index"),
 }
 m = {"version":1,
  "setup_cmd":"/venv/bin/python -c 'import ford, sys; print(ford.__file__)' && command -v dot setarch >/dev/null && mkdir -p /dev/shm/fordsim",
